@@ -994,7 +994,14 @@ fn start_watchdog_inner() {
         sa.sa_flags = 0;
         libc::sigaction(libc::SIGUSR2, &sa, std::ptr::null_mut());
     }
-    let _ = std::thread::Builder::new().name("sim-watchdog".into()).spawn(|| {
+    // (the watchdog is the one thread of the process that is not simulated. The standard library's thread prologue
+    // takes a process-wide lock - stack-overflow bookkeeping - which every simulated thread takes too when it
+    // starts: the simulation goes on only once the watchdog is past it, or a simulated thread could find the lock
+    // taken, block in the simulator, and wait for a wake the simulator never sees)
+    static WATCHDOG_UP: AtomicU32 = AtomicU32::new(0);
+    WATCHDOG_UP.store(0, Ordering::SeqCst);
+    let spawned = std::thread::Builder::new().name("sim-watchdog".into()).spawn(|| {
+        WATCHDOG_UP.store(1, Ordering::SeqCst);
         let mut last = u64::MAX;
         let mut same = 0u64;
         loop {
@@ -1021,6 +1028,9 @@ fn start_watchdog_inner() {
             }
         }
     });
+    while spawned.is_ok() && WATCHDOG_UP.load(Ordering::SeqCst) == 0 {
+        std::hint::spin_loop();
+    }
 }
 
 /// Access the simulator from harness code running on a registered thread (token holder).
